@@ -441,13 +441,71 @@ Lemma invalid_outcome x : is_moclo_invalid x -> forall A (k : A -> exc (pyrecord
   outcome_of (Err x) = EInvalid.
 Proof. intros [-> | ->]; reflexivity. Qed.
 
-Theorem vector_assemble_eq vector modules :
+(* the second phase: _generate_assembly on a manager whose vector types, with a dictionary that
+   relates to the typed modules (whatever records the entities carry) *)
+Lemma generate_phase vector mgr d' pre n up down fr :
+  good_ent vector -> am_vector mgr = vector ->
+  overhang_start (ent_cls vector) (ent_seq_w vector) true = Some up ->
+  overhang_end (ent_cls vector) (ent_seq_w vector) true = Some down ->
+  target (ent_cls vector) (ent_seq_w vector) true = Some fr ->
+  dict_rel d' pre -> List.length pre = n ->
+  outcome_of (AssemblyManager_generate_assembly (S (S n)) mgr d') =
+  forget_used (finish {| vup := okey up; vdown := okey down; vfrag := fr |}
+                 (dwalk (S (List.length pre)) (okey up) (okey down) pre [])).
+Proof.
+  intros Gv Hmv Hu Hd Hf Hrel Hlen.
+  pose proof (ent_queries vector Gv) as Q.
+  destruct (typing (ent_cls vector) (ent_seq_w vector) true) as [mv| |] eqn:Htv.
+  2,3: unfold overhang_start, with_match in Hu; rewrite Htv in Hu; discriminate.
+  destruct Q as (r1 & r2 & r3 & up' & down' & fr' & Hu' & Hd' & Hf' & E1 & P1 & E2 & P2 & E3 & P3 & K3).
+  assert (Hup : up' = up) by congruence. assert (Hdown : down' = down) by congruence. assert (Hfr : fr' = fr) by congruence.
+  rewrite Hup in *. rewrite Hdown in *. rewrite Hfr in *. clear Hup Hdown Hfr Hu' Hd' Hf'.
+  unfold AssemblyManager_generate_assembly. rewrite Hmv.
+  rewrite E2. cbn [bind].
+  change (py_while0 (S (S n)) ?st _ _)
+    with (py_while0 (S (S n)) st (walk_cond vector) walk_body).
+  rewrite Hlen.
+  assert (Un : upper_word (pr_seq (seq_upper r2))) by (cbn; apply upper_fold).
+  assert (Kn : okey (pr_seq (seq_upper r2)) = okey down) by (cbn; now rewrite okey_fold, P2).
+  pose proof (walk_loop vector r1 (okey up) E1 (f_equal okey (eq_sym P1))
+                (S n) d' pre (mk_SeqRecord1 (mk_Seq [])) (seq_upper r2) []
+                Hrel Un (conj eq_refl eq_refl) eq_refl) as WL.
+  rewrite Kn in WL.
+  assert (Hnf : dwalk (S n) (okey up) (okey down) pre [] <> WFuel)
+    by (apply (walk_fuel codes_eqb codes_eqb_spec); lia).
+  specialize (WL Hnf).
+  destruct (dwalk (S n) (okey up) (okey down) pre []) as [u rest|o|]; [| |contradiction].
+  - destruct WL as (d2 & asm' & next' & Ew & Hrel2 & Pa & Ka). rewrite Ew. cbn [bind py_try].
+    rewrite (dict_rel_empty d2 rest Hrel2). rewrite E3.
+    destruct (addm_seqrecords asm' r3 Ka K3) as (prod & Ep & Pp & Kp & Ap).
+    cbn [finish].
+    destruct rest as [|t0 rest0]; cbn [bind app]; rewrite Ep; cbn [bind];
+      rewrite CircularRecord_new_eq; unfold bio_CircularRecord_of; rewrite Ap; cbn [bind outcome_of forget_used pr_seq];
+      rewrite Pp, Pa, P3; [reflexivity|].
+    rewrite (dict_rel_ids d2 (t0 :: rest0) Hrel2). reflexivity.
+  - destruct WL as (k & Ew & Hk). rewrite Ew. cbn [bind py_try finish outcome_of forget_used]. now rewrite Hk.
+Qed.
+
+(* the first phase: __init__ and _generate_modules_map; an error here is the outcome *)
+Lemma modmap_phase vector modules i n :
   good_ent vector -> Forall good_ent modules ->
   map ent_id modules = seq 0 (List.length modules) ->
-  outcome_of (vector_assemble (S (S (List.length modules))) vector modules)
-  = forget_used (assemble_raw (ent_cls vector) (ent_seq_w vector) (map raw_of modules)).
+  match (mgr <- AssemblyManager_init tt vector modules i n ;;
+         d <- AssemblyManager_generate_modules_map mgr ;; Ok (mgr, d)) with
+  | Err e => @outcome_of (Err e) = forget_used (assemble_raw (ent_cls vector) (ent_seq_w vector) (map raw_of modules))
+  | Ok (mgr, d') => exists up down fr pre,
+      am_vector mgr = vector /\ am_modules mgr = modules /\ am_elements mgr = modules ++ [vector]
+      /\ am_id mgr = i /\ am_name mgr = n /\
+      overhang_start (ent_cls vector) (ent_seq_w vector) true = Some up /\
+      overhang_end (ent_cls vector) (ent_seq_w vector) true = Some down /\
+      target (ent_cls vector) (ent_seq_w vector) true = Some fr /\
+      dict_rel d' pre /\ List.length pre = List.length modules /\
+      forget_used (assemble_raw (ent_cls vector) (ent_seq_w vector) (map raw_of modules)) =
+      forget_used (finish {| vup := okey up; vdown := okey down; vfrag := fr |}
+                     (dwalk (S (List.length pre)) (okey up) (okey down) pre []))
+  end.
 Proof.
-  intros Gv Gm Hids. unfold vector_assemble, assemble_raw, typed_vector.
+  intros Gv Gm Hids. unfold assemble_raw, typed_vector.
   pose proof (ent_queries vector Gv) as Q.
   unfold AssemblyManager_init.
   destruct (typing (ent_cls vector) (ent_seq_w vector) true) as [mv| |] eqn:Htv.
@@ -477,32 +535,24 @@ Proof.
   rewrite (rc_loop d' pre Hrel Hnd d' pre Hrel (fun t H => H)).
   unfold dna_assemble, assemble, assemble_with. cbn [vup vdown]. rewrite Hvo, Hbm.
   destruct (drc_clash pre pre) as [[a b]|]; [reflexivity|].
-  cbn [bind]. unfold AssemblyManager_generate_assembly. cbn [am_vector].
-  rewrite E2. cbn [bind].
-  change (py_while0 (S (S (List.length modules))) ?st _ _)
-    with (py_while0 (S (S (List.length modules))) st (walk_cond vector) walk_body).
+  cbn [bind].
   assert (Hlen : List.length pre = List.length modules)
     by (rewrite (type_prefix_length _ _ _ Htp); apply map_length).
-  rewrite Hlen.
-  assert (Un : upper_word (pr_seq (seq_upper r2))) by (cbn; apply upper_fold).
-  assert (Kn : okey (pr_seq (seq_upper r2)) = okey down) by (cbn; now rewrite okey_fold, P2).
-  pose proof (walk_loop vector r1 (okey up) E1 (f_equal okey (eq_sym P1))
-                (S (List.length modules)) d' pre (mk_SeqRecord1 (mk_Seq [])) (seq_upper r2) []
-                Hrel Un (conj eq_refl eq_refl) eq_refl) as WL.
-  rewrite Kn in WL.
-  assert (Hnf : dwalk (S (List.length modules)) (okey up) (okey down) pre [] <> WFuel)
-    by (apply (walk_fuel codes_eqb codes_eqb_spec); lia).
-  specialize (WL Hnf).
-  destruct (dwalk (S (List.length modules)) (okey up) (okey down) pre []) as [u rest|o|]; [| |contradiction].
-  - destruct WL as (d2 & asm' & next' & Ew & Hrel2 & Pa & Ka). rewrite Ew. cbn [bind py_try].
-    rewrite (dict_rel_empty d2 rest Hrel2). rewrite E3.
-    destruct (addm_seqrecords asm' r3 Ka K3) as (prod & Ep & Pp & Kp & Ap).
-    cbn [finish].
-    destruct rest as [|t0 rest0]; cbn [bind app]; rewrite Ep; cbn [bind];
-      rewrite CircularRecord_new_eq; unfold bio_CircularRecord_of; rewrite Ap; cbn [bind outcome_of forget_used pr_seq];
-      rewrite Pp, Pa, P3; [reflexivity|].
-    rewrite (dict_rel_ids d2 (t0 :: rest0) Hrel2). reflexivity.
-  - destruct WL as (k & Ew & Hk). rewrite Ew. cbn [bind py_try finish outcome_of forget_used]. now rewrite Hk.
+  exists up, down, fr, pre. cbn [am_vector am_modules am_elements am_id am_name]. repeat split; auto.
+Qed.
+
+Theorem vector_assemble_eq vector modules :
+  good_ent vector -> Forall good_ent modules ->
+  map ent_id modules = seq 0 (List.length modules) ->
+  outcome_of (vector_assemble (S (S (List.length modules))) vector modules)
+  = forget_used (assemble_raw (ent_cls vector) (ent_seq_w vector) (map raw_of modules)).
+Proof.
+  intros Gv Gm Hids. unfold vector_assemble.
+  pose proof (modmap_phase vector modules PyHeap.str_assembly PyHeap.str_assembly Gv Gm Hids) as M1.
+  destruct (AssemblyManager_init tt vector modules PyHeap.str_assembly PyHeap.str_assembly) as [mgr|e]; cbn [bind] in *; [|exact M1].
+  destruct (AssemblyManager_generate_modules_map mgr) as [d'|e]; cbn [bind] in *; [|exact M1].
+  destruct M1 as (up & down & fr & pre & Hv & _ & _ & _ & _ & Hu & Hd & Hf & Hrel & Hlen & Eraw).
+  rewrite Eraw. apply (generate_phase vector mgr d' pre (List.length modules) up down fr); auto.
 Qed.
 
 (* ======================================================================================== *)
